@@ -45,8 +45,14 @@ func c16Gen(r *Rand, tier string, scale int, emit func(Fields)) {
 		switch {
 		case n%2 == 0:
 			c.recmode = 0 // the default LogPanic in every other session
-		case n%4 == 1:
+		case n%8 == 1:
 			c.recmode = 2 // the hook installed after part of the registrations
+		case n%8 == 5:
+			c.recmode = 3 // the hook set through the retained *Config after Client(cfg)
+		}
+		if n%8 == 3 && c.endmode == 0 {
+			c.seed = c.seed/8*8 + 1 // fg handlers register / remove a bg handler while bg handlers are parked
+			c.parkPct = 50
 		}
 		if n%5 == 4 {
 			c.endmode = 1 + r.Intn(2)
